@@ -42,7 +42,7 @@ def record(sc):
     tr = dict(nodes=g["nodes"], kind=g["kind"], pos=g["pos"], named=g["named"], obs=g["obs"], meta=g["meta"],
               outs=g["outs"], wv=g["wv"], raised="", result=[], counts={})
     try:
-        with time_limit(20):
+        with time_limit(180):
             m = build_model(g, rec, order=sc.get("order"))
             from harness.symgraph import Sym
             wv = {x: Sym(["wv", x]) for x in g["wv"]} or None
